@@ -39,7 +39,7 @@ N_ROW_UNITS, N_SEQ_UNITS, N_CORPUS_UNITS = 16, 12, 4
 
 
 def plan(tier, seed):
-    nseq = 300 if tier == "quick" else 8000
+    nseq = 1200 if tier == "quick" else 8000
     return (
         [{"kind": "rows", "shard": i, "of": N_ROW_UNITS} for i in range(N_ROW_UNITS)]
         + [{"kind": "seq", "shard": i, "of": N_SEQ_UNITS, "n": nseq} for i in range(N_SEQ_UNITS)]
